@@ -85,7 +85,7 @@ def run(c):
             "facets", "facetsApplied", "facetsV1Applied", "facetsBorrowApplied", "facetsUntouched", "facetsEnvFault", "multiAppSweeps",
             "stages", "stagesFailedWithWork", "oracleRounds", "oracleZeroRounds", "oracleRebuildRounds", "histSteps"]
     zero = [k for k in need if st.get(k, 0) == 0]
-    if zero:
+    if zero and not c.violations:   # a violation on real-code states is a verdict whatever the coverage
         raise vlib.NoVerdict("vacuous run, zero antecedent counters %s: %s" % (zero, st))
     if m1.get("transitions_dumped", 0) != st["toys"]:
         raise vlib.NoVerdict("model behaviours dumped (%s) != executed on the real wrapper (%s)" % (m1.get("transitions_dumped"), st["toys"]))
